@@ -95,21 +95,33 @@ func sortPairs(e []*big.Int) []*big.Int {
 // friTranscript replays the verifier's Fiat-Shamir derivation from the prover messages of one round:
 // folding challenges x_i (from the roots) and the query position (from the final evaluation).
 func (f *friInst) friTranscript(roots [][]byte, evaluation *big.Int) (xi []*big.Int, pos int) {
+	return f.friTranscriptHyp(roots, evaluation, -1, false, false)
+}
+
+// friTranscriptHyp: dropRoot >= 0 leaves root number dropRoot out of x_dropRoot, dropSalt leaves the salt
+// out of x0, dropEval leaves the final evaluation out of s0.
+func (f *friInst) friTranscriptHyp(roots [][]byte, evaluation *big.Int, dropRoot int, dropSalt, dropEval bool) (xi []*big.Int, pos int) {
 	names := make([]string, f.nbSteps+1)
 	for i := 0; i < f.nbSteps; i++ {
 		names[i] = fmt.Sprintf("x%d", i)
 	}
 	names[f.nbSteps] = "s0"
 	fs := fiatshamir.NewTranscript(sha256.New(), names...)
-	must(fs.Bind(names[0], f.c.marshalFelt(new(big.Int)))) // salt of round 0
+	if !dropSalt {
+		must(fs.Bind(names[0], f.c.marshalFelt(new(big.Int)))) // salt of round 0
+	}
 	xi = make([]*big.Int, f.nbSteps)
 	for i := 0; i < f.nbSteps; i++ {
-		must(fs.Bind(names[i], roots[i]))
+		if i != dropRoot {
+			must(fs.Bind(names[i], roots[i]))
+		}
 		b, err := fs.ComputeChallenge(names[i])
 		must(err)
 		xi[i] = new(big.Int).Mod(new(big.Int).SetBytes(b), f.c.q)
 	}
-	must(fs.Bind(names[f.nbSteps], f.c.marshalFelt(evaluation)))
+	if !dropEval {
+		must(fs.Bind(names[f.nbSteps], f.c.marshalFelt(evaluation)))
+	}
 	b, err := fs.ComputeChallenge(names[f.nbSteps])
 	must(err)
 	pos = int(new(big.Int).Mod(new(big.Int).SetBytes(b), big.NewInt(int64(f.N))).Int64())
@@ -128,6 +140,10 @@ func must(err error) {
 type friDeviation struct {
 	step int      // 1..nbSteps-1: the function committed at that step is the correct fold plus delta; nbSteps: the final evaluation is shifted
 	add  *big.Int // delta != 0
+	// adaptive prover under the hypothesis that the query position does not depend on the final evaluation:
+	// the positions are derived without binding it, then the announced evaluation is the value that the
+	// single query will see
+	evalAfterQuery bool
 }
 
 type friTrace struct {
@@ -195,14 +211,19 @@ func (f *friInst) refProve(evals []*big.Int, dev *friDeviation) (reflect.Value, 
 	}
 	tr.final = folded
 	tr.eval = new(big.Int).Set(folded[0])
-	if dev != nil && dev.step == f.nbSteps {
+	if dev != nil && dev.step == f.nbSteps && dev.add != nil {
 		tr.eval = addm(tr.eval, dev.add, q)
 	}
-	must(fs.Bind(names[f.nbSteps], f.c.marshalFelt(tr.eval)))
+	if dev == nil || !dev.evalAfterQuery {
+		must(fs.Bind(names[f.nbSteps], f.c.marshalFelt(tr.eval)))
+	}
 	b, err := fs.ComputeChallenge(names[f.nbSteps])
 	must(err)
 	pos := int(new(big.Int).Mod(new(big.Int).SetBytes(b), big.NewInt(int64(f.N))).Int64())
 	tr.si = queryPositions(pos, f.N, f.nbSteps)
+	if dev != nil && dev.evalAfterQuery {
+		tr.eval = new(big.Int).Set(folded[tr.si[f.nbSteps-1]/2])
+	}
 
 	// assemble fri.ProofOfProximity
 	F := f.c.fri
@@ -442,6 +463,10 @@ func propFRI(t *rapid.T, c *curve) {
 		rep.Case(test, stmt+" positions", false, "fri", "positions_model_ok")
 	} else {
 		rep.Case(test, stmt+" positions", false, "fri", "positions_unavailable")
+		// the documented transcript does not explain the proof: does a transcript with one message left out?
+		if what := f.reducedTranscriptExplains(view); what != "" {
+			accepted(t, "%s: CHALLENGE BINDING: the honest proof is consistent (query positions authenticated by the Merkle paths, every folding equation) with a transcript in which %s, and not with the documented one (%s)", test, what, clip(stmt))
+		}
 	}
 
 	// (1) completeness: openings at drawn positions; the claimed value is p(g^pos) by the reference
@@ -585,6 +610,171 @@ func propFRI(t *rapid.T, c *curve) {
 
 	// (3) far-from-low-degree function: p + c*X^n is at distance >= 7/8 from every polynomial of degree < n.
 	f.farFunction(t, test, stmt, p, evals)
+
+	// (4) challenge binding
+	f.bindingX0(t, test, stmt, p, false)
+	f.bindingX0(t, test, stmt, p, true)
+	f.bindingS0(t, test, stmt, evals)
+}
+
+// foldsHold re-evaluates every folding equation of a proof at the given challenges and positions.
+func (f *friInst) foldsHold(v friView, xi []*big.Int, si []int) bool {
+	q := f.c.q
+	two := invm(big.NewInt(2), q)
+	gl := invm(f.g, q)
+	for i := 0; i < f.nbSteps; i++ {
+		if len(v.sets[i][0]) == 0 || len(v.sets[i][1]) == 0 {
+			return false
+		}
+		l, r := new(big.Int).SetBytes(v.sets[i][0][0]), new(big.Int).SetBytes(v.sets[i][1][0])
+		w := expm(gl, int64(si[i]/2), q)
+		fo := mulm(addm(mulm(mulm(subm(l, r, q), w, q), xi[i], q), addm(l, r, q), q), two, q)
+		var want *big.Int
+		if i+1 < f.nbSteps {
+			nx := v.sets[i+1][si[i+1]%2]
+			if len(nx) == 0 {
+				return false
+			}
+			want = new(big.Int).Mod(new(big.Int).SetBytes(nx[0]), q)
+		} else {
+			want = v.eval
+		}
+		if fo.Cmp(want) != 0 {
+			return false
+		}
+		gl = mulm(gl, gl, q)
+	}
+	return true
+}
+
+// reducedTranscriptExplains is consulted only when the documented transcript does NOT reproduce the
+// query positions of an honest, accepted proof. It returns a description of the first transcript with
+// one message left out that does (positions authenticated by the Merkle paths and all folding
+// equations satisfied), or "". (Metamorphic form of the binding requirement for the challenges
+// x_i, i >= 1, for which no adaptive forgery with a deterministic verdict exists: the function of step i
+// is already determined by step i-1 when x_i becomes known.)
+func (f *friInst) reducedTranscriptExplains(v friView) string {
+	if len(v.roots) != f.nbSteps {
+		return ""
+	}
+	roots := make([][]byte, f.nbSteps)
+	for i := range roots {
+		roots[i] = v.roots[i][0]
+	}
+	try := func(dropRoot int, dropSalt, dropEval bool) bool {
+		xi, pos := f.friTranscriptHyp(roots, v.eval, dropRoot, dropSalt, dropEval)
+		si := queryPositions(pos, f.N, f.nbSteps)
+		for i, s := range si {
+			c := s % 2
+			if !merklePathValid(v.roots[i][c], v.sets[i][c], uint64(s), v.nl[i][c]) {
+				return false
+			}
+		}
+		return f.foldsHold(v, xi, si)
+	}
+	for i := 0; i < f.nbSteps; i++ {
+		if try(i, false, false) {
+			return fmt.Sprintf("x%d does not depend on the Merkle root of step %d", i, i)
+		}
+	}
+	if try(-1, true, false) {
+		return "x0 does not depend on the salt"
+	}
+	if try(-1, false, true) {
+		return "the query position does not depend on the final evaluation"
+	}
+	return ""
+}
+
+// bindingX0: the library's own prover. x0' is derived before the function exists (from the salt only,
+// or from nothing); the function is p + c*X^(n+1) - x0'*c*X^n: degree n+1 (relative distance >= 1-(n+1)/8n
+// from the code) whose fold at x0' is the fold of p. If x0 really did not depend on the first Merkle
+// root the library's prover would fold it to a low-degree function and its verifier would accept. The
+// verdict a correct verifier must give is computed with the reference prover (documented transcript):
+// accept iff the single query happens to see the announced evaluation.
+func (f *friInst) bindingX0(t *rapid.T, test, stmt string, p []*big.Int, dropSalt bool) {
+	c := f.c
+	q := c.q
+	label := map[bool]string{false: "dropped", true: "nothing_bound"}[dropSalt]
+	xi, _ := f.friTranscriptHyp(make([][]byte, f.nbSteps), new(big.Int), 0, dropSalt, true)
+	// only xi[0] is meaningful: it was derived before any root
+	x0 := xi[0]
+	coef := c.spec.Uniform(t, "bind_x0_coef")
+	if coef.Sign() == 0 {
+		coef.SetInt64(1)
+	}
+	far := make([]*big.Int, f.n+2)
+	for i := range far {
+		far[i] = new(big.Int)
+		if i < len(p) {
+			far[i].Set(p[i])
+		}
+	}
+	far[f.n] = subm(far[f.n], mulm(x0, coef, q), q)
+	far[f.n+1] = addm(far[f.n+1], coef, q)
+	key := fmt.Sprintf("%s binding x0!<-root0 (%s) far=[%s]", stmt, label, hexs(far))
+	cls := "binding|fri|x0!<-root0"
+	pp, err := f.prove(far)
+	if err != nil {
+		rep.Case(test, key, true, "fri_proximity", cls, "binding:prover_refused")
+		return
+	}
+	_, tr := f.refProve(f.evaluations(far), nil)
+	lucky := tr.final[tr.si[f.nbSteps-1]/2].Cmp(tr.eval) == 0
+	o := guard(func() error { return f.verify(pp.Elem()) })
+	if o.panicked != nil {
+		t.Fatalf("%s: verifier panicked: %v", test, o.panicked)
+	}
+	switch {
+	case o.accepted && !lucky:
+		accepted(t, "%s: FALSE STATEMENT ACCEPTED (challenge binding): the library's own prover and verifier accept a function of degree n+1 built from the folding challenge computed without the first Merkle root (%s): x0 does not depend on the commitment (%s)", test, label, clip(key))
+	case !o.accepted && lucky:
+		t.Fatalf("%s: honest-run proof whose single query sees the announced evaluation is rejected: %v", test, o)
+	case lucky:
+		rep.Case(test, key, true, "fri_proximity", cls+"|accepted_by_the_single_query(by_design)")
+		return
+	}
+	rep.Case(test, key, true, "fri_proximity", cls, "binding:"+label, "binding@"+c.name, cls+"@"+c.name, "forged", "rejected")
+}
+
+// bindingS0: reference prover for a far function under the hypothesis that the query position does not
+// depend on the final evaluation: the position is derived first, the announced evaluation is the value
+// the query will see. A correct verifier derives another position (from the evaluation) and rejects,
+// unless the two positions coincide (probability 1/N: detected with the documented transcript and then
+// not asserted).
+func (f *friInst) bindingS0(t *rapid.T, test, stmt string, evals []*big.Int) {
+	c := f.c
+	q := c.q
+	coef := c.spec.Uniform(t, "bind_s0_coef")
+	if coef.Sign() == 0 {
+		coef.SetInt64(1)
+	}
+	far := make([]*big.Int, f.N)
+	x := big.NewInt(1)
+	for i := range far {
+		far[i] = addm(evals[i], mulm(coef, expm(x, int64(f.n), q), q), q)
+		x = mulm(x, f.g, q)
+	}
+	key := fmt.Sprintf("%s binding s0!<-evaluation far=+%s*X^%d", stmt, coef.Text(16), f.n)
+	cls := "binding|fri|s0!<-evaluation"
+	fp, tr := f.refProve(far, &friDeviation{evalAfterQuery: true})
+	// under the hypothesis every check of the verifier holds: the paths are genuine for tr.si and the last fold is the announced value
+	v, _ := viewPP(fp.Elem())
+	if !f.foldsHold(v, tr.xi, tr.si) {
+		t.Fatalf("harness: adaptive proof does not satisfy the folding equations at the hypothesised positions")
+	}
+	if _, coincide := f.positions(v); coincide {
+		rep.Case(test, key, false, "fri_proximity", cls+"|positions_coincide(not_asserted)")
+		return
+	}
+	o := guard(func() error { return f.verify(fp.Elem()) })
+	if o.accepted {
+		accepted(t, "%s: FALSE STATEMENT ACCEPTED (challenge binding): proof for a far function whose announced evaluation was chosen after the query position: the position does not depend on the final evaluation (%s)", test, clip(key))
+	}
+	if o.panicked != nil {
+		t.Fatalf("%s: verifier panicked: %v", test, o.panicked)
+	}
+	rep.Case(test, key, true, "fri_proximity", cls, "binding:dropped", "binding@"+c.name, cls+"@"+c.name, "forged", "rejected")
 }
 
 func mustView(pp reflect.Value) friView { v, _ := viewPP(pp.Elem()); return v }
